@@ -313,8 +313,8 @@ PROPS = {
     ),
     "C11": dict(
         modules=["Whawty.Props.C11"],
-        suites=[("overlay", "v11"), ("overlay", "v11g")],
-        level_text="linCheck (Wing-Gong search re-validated by validLin) is sound: an accepted history has a "
+        suites=[("overlay", "v11"), ("overlay", "v11g"), ("overlay", "v11s")],
+        level_text="linCheckFinal (memoised Wing-Gong search, re-validated by validLin and the final-state test) is sound: an accepted history has a "
                    "linearization that contains every operation, respects real time and reproduces every response "
                    "(validLin_spec); an internal upgrade of the repaired code leaves the abstract store unchanged "
                    "(upgrade_preserves_spec), the pinned one reverts passwords (D6). Real concurrent histories of the "
@@ -323,7 +323,10 @@ PROPS = {
         rule="(a) 80 (2000) free-running histories: 2-6 client goroutines x 1-3 calls (authenticate / update / add / "
              "remove / set-admin / list) on 4 overlapping users, upgrades off and local (records re-hashed under a "
              "non-default set so that logins queue upgrades); (b) 48 (800) gated schedules of the D6 family (upgradeable "
-             "logins and updates of the same users in flight together). After quiescence the directory (users, admin "
+             "logins and updates of the same users in flight together); (c) 192 (3200) staged schedules: the dispatcher is "
+             "stepped into an upgradeable login while remove+add / update / remove / set-admin+update of the SAME user "
+             "are already queued, so that the internal upgrade races with them under the dispatcher's random select. "
+             "The linearization must also END in the observed idle state (linCheckFinal). After quiescence the directory (users, admin "
              "flags, which known password authenticates) must equal the linearization's final state and pass Check.",
         trusted=[T_GO, T_CRYPTO, "logical clocks (one atomic counter) for invocation / response order"],
         partial=["linCheck_complete (no linearizable history is rejected) is not proved; a rejection is reported as a "
